@@ -1315,6 +1315,11 @@ impl Union for AdjacencyMap {
                                             union_sets_unsafe(&a.1, &b.1);
 
                                         local.push((a.0, union_set));
+
+                                        // Both entries are consumed.
+                                        drop(read(lhs_ptr.add(i)));
+                                        drop(read(rhs_ptr.add(j)));
+
                                         i += 1;
                                         j += 1;
                                     }
@@ -1353,6 +1358,19 @@ impl Union for AdjacencyMap {
                 merged_entries.extend(h.join().unwrap());
             }
         });
+
+        // Every entry has been moved out or dropped; release the buffers
+        // without dropping the entries again.
+        unsafe {
+            let mut lhs_vec = ManuallyDrop::into_inner(lhs_vec);
+            let mut rhs_vec = ManuallyDrop::into_inner(rhs_vec);
+
+            lhs_vec.set_len(0);
+            rhs_vec.set_len(0);
+
+            drop(lhs_vec);
+            drop(rhs_vec);
+        }
 
         merged_entries.sort_unstable_by_key(|&(k, _)| k);
 
